@@ -49,7 +49,9 @@ func (c *chainM) GC(g uint32) {
 	c.Persist()
 	c.mod.GC(g, c.ps)
 }
-func (c *chainM) Reset() {}
+func (c *chainM) GCLow(g uint32) { c.mod.GC(g, c.ps) }
+func (c *chainM) Upper() (view, int) { return readUpper(c.mod.Store) }
+func (c *chainM) Reset()         {}
 func (c *chainM) Persist() {
 	if err := c.bc.VerifPersist(); err != nil {
 		panic(err)
@@ -191,8 +193,10 @@ func runChainCase(o *hx.Out, f *hx.Flags, k int, r *prng.R) {
 		nBlocks = r.Range(10, 30)
 	}
 	gcSeen := 0
+	allPersisted := false
 	waitQuiet := func() {
 		// wait until everything is persisted and a collection started by that persist has finished
+		allPersisted = false
 		deadline := time.Now().Add(6 * time.Second)
 		for time.Now().Before(deadline) {
 			time.Sleep(60 * time.Millisecond)
@@ -209,6 +213,7 @@ func runChainCase(o *hx.Out, f *hx.Flags, k int, r *prng.R) {
 			st := logs.FilterMessage("starting MPT garbage collection").Len()
 			fi := logs.FilterMessage("finished MPT garbage collection").Len()
 			if st == fi {
+				allPersisted = true
 				break
 			}
 		}
@@ -256,6 +261,48 @@ func runChainCase(o *hx.Out, f *hx.Flags, k int, r *prng.R) {
 	}
 	if !quiet && !h.dead {
 		h.checkRetained(cm.View(), true)
+	}
+	if mode == "gcreal" && !h.dead && !allPersisted {
+		o.Count("gcreal:tick-check-skipped") // the machine was too slow: the log would be ambiguous
+	}
+	if mode == "gcreal" && !h.dead && allPersisted {
+		// Stop the node (Close waits for Run to return, so the tryRunGC of the last tick has finished;
+		// everything was persisted by the last waitQuiet, so the persist of Run's exit logs nothing) and
+		// read the complete log: every "persisted to disk" entry is one timer tick of Run with
+		// oldPersisted = blockHeight - blocks; a "starting MPT garbage collection" entry before the next
+		// tick is its collection. The model of tryRunGC must predict each decision and index.
+		mtbNow := bc.GetMaxTraceableBlocks()
+		t.done()
+		var cur *[2]uint32
+		obs := "gc=-"
+		flush := func() {
+			if cur != nil {
+				h.line(fmt.Sprintf("tickchk %d %d %d", mtbNow, cur[0], cur[1]), obs)
+				o.Count("gcreal:tick-checked")
+				if obs != "gc=-" {
+					o.Count("gcreal:tick-checked:collected")
+				}
+			}
+			cur, obs = nil, "gc=-"
+		}
+		h.line(fmt.Sprintf("cfg %d 0 0 %d", gcp, mtbNow), "ok")
+		for _, en := range logs.All() {
+			switch en.Message {
+			case "persisted to disk":
+				flush()
+				var bh, nb uint32
+				fmt.Sscan(fmt.Sprint(en.ContextMap()["blockHeight"]), &bh)
+				fmt.Sscan(fmt.Sprint(en.ContextMap()["blocks"]), &nb)
+				cur = &[2]uint32{bh - nb, bh}
+			case "starting MPT garbage collection":
+				if cur == nil {
+					h.fail("harness-gc-log", "a collection without a preceding persist in the log")
+					continue
+				}
+				obs = "gc=" + fmt.Sprint(en.ContextMap()["index"])
+			}
+		}
+		flush()
 	}
 	o.Seen(fmt.Sprintf("chain/%s:%d:%d", mode, nBlocks, len(own)))
 }
